@@ -133,7 +133,7 @@ def case_st(draw, tier):
     unit = {"grid": 125.0, "int": 1.0, "float": 0.001}[kind]
 
     # tempo points: forward walk -> distinct times by construction
-    n_bpm = draw(st.integers(1, 40 if big else 5)) if draw(st.integers(0, 5)) else 1
+    n_bpm = draw(st.integers(2, 40 if big else 5)) if draw(st.integers(0, 7)) else 1
     t0 = rnd(draw(st.sampled_from([0.0, 0.0, 0.0, -1000.0, -250.0, 1234.0, 61000.0])))
     gap_st = st.one_of(
         st.sampled_from([125.0, 250.0, 250.0, 500.0, 1000.0]),
